@@ -12,6 +12,12 @@ COMPS = [  # id, name, type, one letter code, weight
     ("LIG", "LIGAND", "NON-POLYMER", "?", 100.0),
     ("A", "ADENOSINE-5'-MONOPHOSPHATE", "RNA LINKING", "A", 347.221),
     ("U", "URIDINE-5'-MONOPHOSPHATE", "RNA LINKING", "U", 324.181),
+] + [(t, t, "L-PEPTIDE LINKING", o, 120.0) for t, o in (
+    ("ARG", "R"), ("ASN", "N"), ("ASP", "D"), ("CYS", "C"), ("GLN", "Q"), ("GLU", "E"), ("HIS", "H"), ("ILE", "I"), ("LEU", "L"),
+    ("LYS", "K"), ("MET", "M"), ("PHE", "F"), ("PRO", "P"), ("THR", "T"), ("TRP", "W"), ("TYR", "Y"), ("VAL", "V"))] + [
+    ("C", "CYTIDINE-5'-MONOPHOSPHATE", "RNA LINKING", "C", 323.0), ("G", "GUANOSINE-5'-MONOPHOSPHATE", "RNA LINKING", "G", 363.0),
+    ("DA", "DA", "DNA LINKING", "A", 331.0), ("DC", "DC", "DNA LINKING", "C", 307.0), ("DG", "DG", "DNA LINKING", "G", 347.0),
+    ("DT", "DT", "DNA LINKING", "T", 322.0),
 ]
 BONDS = [  # comp, atom1, atom2, order, aromatic
     ("ALA", "N", "CA", "SING", "N"), ("ALA", "CA", "C", "SING", "N"), ("ALA", "C", "O", "DOUB", "N"), ("ALA", "CA", "CB", "SING", "N"),
